@@ -411,7 +411,9 @@ func c01RunDict(ctx *Ctx, res *Result) {
 			defer wg.Done()
 			sem <- struct{}{}
 			defer func() { <-sem }()
-			viol := c01Process(ctx, res, b, true)
+			// a dictionary case is the base fixture plus one small change: a slow case is not reduced
+			// further (every passing candidate would cost seconds of CPU)
+			viol := c01Process(ctx, res, b, b.v.Kind != "hang" && b.v.Kind != "time")
 			if viol == nil {
 				return
 			}
